@@ -32,6 +32,12 @@ func (e *Expr) Render() string {
 		if e.Right.Binding != "" {
 			r = e.Right.Binding
 		}
+		if e.Op == "" {
+			return e.Left // a bare binding (derivable; the expression builder has to refuse it)
+		}
+		if r == "" {
+			return e.Left + " " + e.Op
+		}
 		if e.Swap {
 			return r + " " + e.Op + " " + e.Left
 		}
